@@ -444,7 +444,14 @@ func (an *Analysis) decide(c *Call) (deciding *vnet.Ev, exp model.Expect) {
 		if !model.HeaderOK(c.St.Op, d.Data) {
 			return d, mustFail("wrong protocol id or function code")
 		}
-		return d, model.Decode(c.St.Op, &c.St.Args, d.Data, ctx)
+		exp := model.Decode(c.St.Op, &c.St.Args, d.Data, ctx)
+		if an.Sc.TZ != "" {
+			// the run has a process zone: a civil time that does not exist there is exempt (C13)
+			if loc := zones.Load(an.Sc.TZ); loc != nil {
+				relaxZone(loc, c.St.Op, &exp, d.Data)
+			}
+		}
+		return d, exp
 	}
 	return nil, mustFail("no acceptable reply was delivered")
 }
